@@ -20,19 +20,27 @@ RULE = ("one seeded world (1-4 looms, 1-3 processes, 1-4 threads, ranks or not, 
         "distributions); non-trivial = >= 2 threads in some process or loom so that a carrier choice exists")
 REAL = ["ovniemu (src/emu/**: system.c, loom.c, proc.c, thread.c, cpu.c) built from /repo's working tree"]
 STUB = ["libovni replaced by the independent trace writer sim/tracefmt.py"]
-ASSUMPTIONS = ["distinct ranks per process (equal ranks would make the documented order ambiguous)",
+ASSUMPTIONS = ["equal ranks are not among the statement's contradictions: such traces are emulated and ordered by (rank, PID) and (minimum rank, loom name)",
                "partial rank information inside a loom is not in the statement's list of contradictions and is not generated"]
 
 
 def gen(rng, tier, idx):
     r = rng.derive("world")
     desc = mgen.gen_world_desc(r, nlooms=(1, 4), ncpus=(1, 4), nprocs=(1, 3), nthreads=(1, 4), ranks=r.chance(50))
+    if desc["looms"] and rng.derive("dup-rank").chance(8):
+        # two processes with the same rank (not in the statement's list of contradictions, so the trace is emulated): the
+        # order must still come from the metadata (rank, then PID; minimum rank, then loom name), never from the paths
+        ranked = [p for l in desc["looms"] for p in l["procs"] if p["rank"] is not None]
+        if len(ranked) >= 2:
+            rd = rng.derive("dup-rank-which")
+            a, b = rd.sample(ranked, 2)
+            b["rank"] = a["rank"]
     rv = rng.derive("variants")
     nvar = rv.randint(3, 6) if tier == "thorough" else rv.randint(3, 4)
     fault = None
     rf = rng.derive("faults")
     if rf.chance(35):
-        fault = rf.choice(["appid", "rank", "nranks", "index2phy", "phy2index", "duptid", "nocpus", "noappid", "cpuhole"])
+        fault = rf.choice(["appid", "rank", "nranks", "index2phy", "phy2index", "duptid", "nocpus", "noappid", "cpuhole", "duptid-loom"])
     return {"world": desc, "vseeds": [rv.u64() for _ in range(nvar)], "fault": fault, "fseed": rf.u64()}
 
 
@@ -118,6 +126,20 @@ def apply_fault(w, metas, fault, rng):
         s.events = list(t.stream.events)
         s.suffix = ".dup"
         return "two streams with tid %d in process %d" % (t.tid, t.proc.pid), [s]
+    if fault == "duptid-loom":
+        # the same TID in two processes of one loom: a TID names a thread of the node, not of a process
+        cands = [l for l in w.looms if len(l.procs) >= 2]
+        if not cands:
+            return None
+        l = rng.choice(cands)
+        pa, pb = rng.sample(l.procs, 2)
+        ta, tb = rng.choice(pa.threads), rng.choice(pb.threads)
+        m = copy.deepcopy(metas[id(tb)])
+        m["ovni"]["tid"] = ta.tid
+        s = tf.Stream(tb.loom.name, tb.proc.pid, ta.tid, m)
+        s.events = list(tb.stream.events)
+        s.suffix = ""
+        return "tid %d in processes %d and %d of loom %s" % (ta.tid, pa.pid, pb.pid, l.name), [("replace", tb, s)]
     if fault == "nocpus":
         l = rng.choice(w.looms)
         for p in l.procs:
@@ -178,9 +200,11 @@ def run(case, ctx):
                 fault_done, extra_streams = fr
                 info["faults"]["contradiction:" + case["fault"]] = 1
         streams = []
+        replaced = {id(x[1]): x[2] for x in extra_streams if isinstance(x, tuple) and x[0] == "replace"}
+        extra_streams = [x for x in extra_streams if not isinstance(x, tuple)]
         for t in w.threads:
             t.stream.meta = metas[id(t)]
-            streams.append(t.stream)
+            streams.append(replaced.get(id(t), t.stream))
         for s in extra_streams:
             # same tid, different directory
             class S(tf.Stream):
